@@ -11,6 +11,14 @@ PY = "PYTHONDONTWRITEBYTECODE=1 /venv/bin/python"
 
 # id -> (level category, engine, technique, level text, level note, design section)
 CHECKS = {
+    "C01": (
+        "exploration", "engine",
+        "stateless exhaustive enumeration of (grammar x context x trivia x modifier x input x start position) executions; relational oracle interpreter == generated module",
+        "Every expression kind in every nesting context (32 contexts that force 'inner construct commits, outer construct fails'), with stack operations, tags, all rule modifiers and trivia configurations, is run on every short input in both interpreters and in the modules generated from them; "
+        "the generated module must compile, be byte-identical on regeneration, and return exactly the interpreter's tree (names, spans, nesting, tags) or fail with the same furthest_pos. Rule names that collide with generated identifiers are included.",
+        "Trusted: CPython exec, the tuple canonicalisation of Pairs. No reference model is needed (the property is relational). Not covered: larger grammars; bundled real grammars are compared the same way in C08.",
+        "5/C01",
+    ),
     "C03": (
         "model_checking", "engine",
         "stateless exhaustive enumeration of (grammar x input) executions of the unoptimised interpreter in lock-step with an executable reference PEG model",
@@ -26,6 +34,14 @@ CHECKS = {
         "(so trivia is leading, between, trailing, inside atomic spans and unterminated) are run in IU, GU, IO and GO and compared - spans, inner pairs, positions of non-silent trivia pairs - with the reference evaluator.",
         "Trusted: mc/refpeg.py (skip placement, atomicity and pair visibility transcribed from pest's generator/ParserState; validated on the pinned pest-suite samples). Helper packs are fixed, not enumerated. Not covered: larger bodies, longer inputs.",
         "5/C04",
+    ),
+    "C05": (
+        "model_checking", "engine",
+        "stateless exhaustive enumeration of stack-operation grammars x inputs in four modes in lock-step with the reference model (persistent stack), plus the ParserState BFS of C09 for the history half",
+        "Template PRE ~ W[INNER ~ FAILER] ~ PEEK_ALL ~ EOI: the input suffix that lets the parse succeed is the stack content, so the stack after every abandoned alternative, optional, repetition iteration and predicate is observable through parse(). "
+        "INNER ranges over all expressions up to k nodes over the seven stack operations and four PEEK slices. Outcome and spans are compared with the reference evaluator in all four modes; any exception other than PestParsingError is a violation, also where the model is UNSPEC (empty-stack PEEK/POP).",
+        "Trusted: mc/refpeg.py stack semantics (pest's stack_push/peek/pop/drop/match_peek_slice; restore-on-error for every abandoned attempt). Not covered: deeper INNER, implicit trivia in this family.",
+        "5/C05",
     ),
     "C09": (
         "model_checking", "bfs",
